@@ -1109,7 +1109,7 @@ func runC06(c *Ctx) {
 	eff := newEff(P)
 	ruleOffsetValid(c, m) // the offsets reported are the ones Peek and Remove accept
 	// removing by a reported offset must work for every offset reported, the tail included (shared with C05)
-	c.rule("R-POP-CONSERVES", 1, "the removal helper keeps the tail element and touches slot i after the cut only under i < new length (shared with C05)")
+	c.rule("R-POP-CONSERVES", 0, "the removal helper keeps the tail element and touches slot i after the cut only under i < new length (shared with C05)")
 	{
 		sub := newCtx(P, "C05", c.Tier)
 		runC05(sub)
